@@ -13,7 +13,7 @@ P = {
  'C03': ('E1', 'CrossHair symbolic execution of the real render path on a symbolic value string vs. independent escaping oracle; pools for non-string values', '4 C03'),
  'C04': ('E1', 'CrossHair: inductive taint invariant per pipeline stage (stage order read from the live modifiers list) + whole-render glue on symbolic tainted strings; selector-enumerated pools (untraced renders) for %-format templates, every str method as fmt=, fmt x C-conversion x modifier combinations', '4 C04, 7.6, 7.8'),
  'C05': ('E1', 'CrossHair two-run non-interference (self-composition) over symbolic secrets and guard decisions per access channel; explicit-oracle skip_unauthorized subsets', '4 C05, 7.3, 7.5'),
- 'C06': ('E1+E4', 'CrossHair on cook() with symbolic source text / spliced code points / selector-enumerated token sequences and attribute lists vs. reference grammar recogniser with located-error check + z3 search for exponential regex ambiguity on the live patterns', '4 C06, 7.3'),
+ 'C06': ('E1+E4', 'CrossHair on cook() with symbolic source text / spliced code points / selector-enumerated token sequences and attribute lists vs. reference grammar recogniser with located-error check + deterministic compile-work counter over nesting depth + z3 search for exponential regex ambiguity on every live patterns', '4 C06, 7.3'),
  'C07': ('E1', 'CrossHair: three printers of one abstract template (selector-enumerated, untraced) with structural normalisation of the compiled programs; pre-compiled variants rendered on symbolic namespace values', '4 C07, 7.3'),
  'C08': ('E1', 'CrossHair with symbolic fault positions and kinds over namespace-stack snapshots (single faults traced, double faults by selectors), symbolic initial recursion level', '4 C08, 7.3'),
  'C09': ('E1', 'CrossHair over symbolic truth values/definedness/falsy kinds with a call-log oracle', '4 C09'),
@@ -25,7 +25,7 @@ P = {
  'C15': ('E1', 'CrossHair over symbolic values/sizes vs. pipeline oracle (pairs of modifiers in both orders, truncation for every string); selector pools for url/case/thousands laws', '4 C15, 7.3'),
  'C16': ('E2+E1', 'AST->SMT of statistics over Real/Int (z3) and IEEE Float64 (cvc5 binary, z3 cross-check) + CrossHair on real renders of mixed items', '4 C16, 7.3'),
  'C17': ('E1', 'CrossHair-enumerated operation histories (render/pickle/copy/munge/cook, untraced bodies) vs. freshly built templates; file-based templates', '4 C17, 7.3'),
- 'C18': ('E3', 'SMT schedule synthesis (z3) over recorded shared-memory traces with read-consistency constraints, replayed on real threads; benign races amplified deterministically (solver-made schedule on steady-state traces repeated on one object)', '4 C18, 7.3, 7.8'),
+ 'C18': ('E3', 'SMT schedule synthesis (z3) over recorded shared-memory traces with read-consistency constraints, replayed on real threads; benign races amplified deterministically (solver-made schedule on steady-state traces repeated on one object); solo results compared across fresh interpreters with opposite render orders', '4 C18, 7.3, 7.8, 7.9'),
  'C19': ('E1', 'CrossHair over symbolic text: bytes insert == text insert per path/form/encoding; ustr laws; pools for cp1252/utf-16', '4 C19'),
  'C20': ('E1', 'CrossHair-enumerated payload lengths (chunk layer with zlib stubbed) and click histories vs. set-of-expanded-paths model', '4 C20, 7.3'),
 }
